@@ -128,8 +128,9 @@ def run_property(ctx, module, vo, files, build_scripts, search, what):
     if not st['regen_ok']:
         broken.append(('translator failed on the current source: ' + st.get('regen_log', '')[-400:], {'stage': 'translate', 'log': st.get('regen_log', '')[-3000:]}))
     elif not st['make_ok']:
-        broken.append(('Coq proof obligation no longer checks: %s' % (st['bad_file'] or '?'),
-                       {'stage': 'proof', 'theorem_file': st['bad_file'], 'coq_log': st['make_log'][-3000:]}))
+        terr = st.get('translation_errors') or []
+        broken.append(('Coq proof obligation no longer checks: %s%s' % (st['bad_file'] or '?', (' (' + '; '.join(e[:200] for e in terr[:3]) + ')') if terr else ''),
+                       {'stage': 'proof', 'theorem_file': st['bad_file'], 'coq_log': st['make_log'][-3000:], 'translation_errors': terr}))
     for m in mism[:50]:
         broken.append(('model and implementation disagree on: %s' % m['line'][:200], {'stage': 'correspondence', **m}))
     if broken:
